@@ -27,7 +27,8 @@ KW = ["$ref", "additionalItems", "additionalProperties", "allOf", "anyOf", "cons
       "minimum", "multipleOf", "not", "oneOf", "pattern", "patternProperties", "properties", "propertyNames",
       "required", "type", "uniqueItems", "id", "$id", "definitions", "default", "$schema"]
 REFS = ["#", "#/definitions/a", "#/nope", "http://unresolvable.invalid/x", "", "#/definitions/a/b", "http://[",
-        "a b", "#/%zz", "#~2"]
+        "a b", "#/%zz", "#~2", "http://localhost:port/item.json", "file:///nonexistent/verif-x.json", "urn:x:y",
+        "mailto:a@b"]
 # a reference to the draft's own bundled metaschema is in the domain (its target is a valid schema of the
 # draft); a reference to another draft's metaschema is not (the target is not a schema of this draft)
 OWN_META_REFS = {
